@@ -57,6 +57,7 @@ func TestMain(m *testing.M) {
 	}
 	vh.Rule("also: 2..8 goroutines translating at the same time, every answer compared with the answer of the same call alone (separate race-detector run)")
 	vh.Rule("also: the error returned for an unsupported / unknown level is read (Error(), wrapped with %w) before the next questions are asked")
+	vh.Rule("also: the test binary starts itself 48 times from each of two processes; every short-lived child prints all its answers (FromGo -8..64, ToGo / String -4..8), which must equal the answers of the process that started it (what a process works out once at start-up, e.g. from map iteration, must not differ between processes)")
 	vh.Main(m, "C20")
 }
 
